@@ -91,7 +91,7 @@ class OptModel:
 class OptSim(Sim):
     PROP = "C08"
     NAME = "optsim"
-    QUICK_RUNS = 20000
+    QUICK_RUNS = 40000
     THOROUGH_RUNS = 500000
     MAX_EVENTS = 40
     PROBES = ["step_before_any_backward", "two_backwards_per_step", "step_without_zero_grad", "frozen_param_with_weight_decay",
